@@ -40,7 +40,7 @@ func c11Boundary(n int) []gen.Num {
 	return out
 }
 
-// c11Tiny: slices with every bound in {omitted,-2,-1,0,1,2} (216), used for nested slices.
+// c11Tiny: slices with every bound in {omitted,-2,-1,0,1,2} (216) plus 7 longer-reaching ones, used for nested slices.
 func c11Tiny() []gen.Sub {
 	vals := []gen.Num{gen.Om(), gen.N(-2), gen.N(-1), gen.N(0), gen.N(1), gen.N(2)}
 	var out []gen.Sub
@@ -51,7 +51,26 @@ func c11Tiny() []gen.Sub {
 			}
 		}
 	}
+	// a few slices whose index lists are not a prefix 0,1,2,.. and reach further (for the grids)
+	out = append(out, gen.Slice2(gen.N(2), gen.N(8)), gen.Slice(gen.Om(), gen.Om(), gen.N(-3)), gen.Slice(gen.N(1), gen.N(7), gen.N(2)),
+		gen.Slice2(gen.N(0), gen.N(3)), gen.Slice(gen.N(1), gen.N(4), gen.N(2)), gen.Slice2(gen.N(-3), gen.Om()), gen.Slice2(gen.N(1), gen.N(18)))
 	return out
+}
+
+// c11Long: bounds and steps for the long-array family (arrays of 9..130 elements: sizes
+// around 8, 16, 32 and 64, where growth policies and hand-written fast paths change behaviour)
+var c11LongLens = []int{9, 17, 33, 40, 50, 70, 130}
+
+func c11LongBounds() []gen.Num {
+	out := []gen.Num{gen.Om()}
+	for _, v := range []int64{0, 1, 8, 16, 17, 31, 32, 33, 35, 40, 49, 50, 64, 69, -1, -9, -33, -50, 200, -200} {
+		out = append(out, gen.N(v))
+	}
+	return out
+}
+
+func c11LongSteps() []gen.Num {
+	return []gen.Num{gen.Om(), gen.N(1), gen.N(2), gen.N(3), gen.N(-1), gen.N(-2), gen.N(17), gen.N(33)}
 }
 
 // c11Unit: family 0 = small (start,end fixed by the unit; all steps, lengths),
@@ -81,6 +100,11 @@ func newC11(tier string) run.Job {
 		}
 	}
 	j.units = append(j.units, c11Unit{2, 0, 0}, c11Unit{3, 0, 0})
+	// family 5: long arrays (start bound fixed by the unit; every end, step; lengths ascending, the
+	// parsed function is reused from one length to the next)
+	for a := range c11LongBounds() {
+		j.units = append(j.units, c11Unit{5, a, 0})
+	}
 	// family 4: a slice applied to the elements selected by another slice (outer slice fixed by the unit)
 	for a := range c11Tiny() {
 		j.units = append(j.units, c11Unit{4, a, 0})
@@ -241,6 +265,20 @@ func (j *c11Job) RunUnit(i int, c *run.Ctx) {
 				j.evalSub(c, gen.Sub{Kind: gen.SIndex, N: v}, n, parsed)
 			}
 		}
+	case 5:
+		s := c11LongBounds()[u.a]
+		for _, e := range c11LongBounds() {
+			for _, t := range c11LongSteps() {
+				for _, n := range c11LongLens {
+					j.evalSub(c, gen.Slice(s, e, t), n, parsed)
+				}
+			}
+		}
+		for _, n := range c11LongLens {
+			if !s.Omitted {
+				j.evalSub(c, gen.Sub{Kind: gen.SIndex, N: s}, n, parsed)
+			}
+		}
 	case 4:
 		outer := c11Tiny()[u.a]
 		for _, inner := range c11Tiny() {
@@ -250,7 +288,7 @@ func (j *c11Job) RunUnit(i int, c *run.Ctx) {
 			if pr.F == nil {
 				continue
 			}
-			for _, dims := range [][2]int{{2, 2}, {3, 2}, {2, 3}, {3, 3}} {
+			for _, dims := range [][2]int{{2, 2}, {3, 2}, {2, 3}, {3, 3}, {10, 4}, {5, 18}} {
 				c.Tick()
 				doc := make([]interface{}, dims[0])
 				for i := range doc {
@@ -413,7 +451,7 @@ func init() {
 			"array elements are their own indices, so a selected value outside [0,len) is detected directly",
 		},
 		Bounds: map[string]string{
-			"quick":    "start,end,step in {omitted} U [-7..7] (both spellings of an omitted step), lengths 0..6 - 28,672+ slices completely; every combination of bounds from {omitted,-2..2,+-2^31,+-(2^63-1),-2^63,+-(2^63-2),+-len,+-(len+1)}; every index from the same sets; out-of-int-range integers at each position; every pair (outer, inner) of the 216 slices with bounds in {omitted,-2..2} on 2x2..3x3 arrays of arrays",
+			"quick":    "start,end,step in {omitted} U [-7..7] (both spellings of an omitted step), lengths 0..6 - 28,672+ slices completely; every combination of bounds from {omitted,-2..2,+-2^31,+-(2^63-1),-2^63,+-(2^63-2),+-len,+-(len+1)}; every index from the same sets; out-of-int-range integers at each position; every pair (outer, inner) of the 216 slices with bounds in {omitted,-2..2} on 2x2..3x3 arrays of arrays; long arrays: lengths 9,17,33,40,50,70,130 x start,end in {omitted,0,1,8,16,17,31,32,33,35,40,49,50,64,69,-1,-9,-33,-50,+-200} x step in {omitted,1,2,3,-1,-2,17,33}, lengths ascending on one parsed function",
 			"thorough": "same as quick (the space is enumerated completely in both tiers)",
 		},
 		New: newC11,
